@@ -8,6 +8,7 @@ CONSTANTS
   MaxDrain = 2
   Q = 2
   AllowSignal = FALSE
+  ReporterFragile = FALSE
 INVARIANTS LockOwnerConsistent 
 PROPERTIES FullyServing
 CHECK_DEADLOCK FALSE
